@@ -878,7 +878,8 @@ fn hay_len(max: usize) -> impl Strategy<Value = usize> {
         2 => 0usize..=40,
         3 => 0usize..=160,
         3 => 0usize..=600,
-        2 => 0usize..=max,
+        2 => 0usize..=2048usize.min(max),
+        1 => 0usize..=max,
     ]
 }
 
@@ -972,7 +973,7 @@ struct PbtState {
 pub fn pbt(ctx: &Ctx, mode: Mode) -> Frag {
     let mut frag = ctx.frag("bytes-proptest");
     frag.require(&REQUIRED_BYTE_CLASSES);
-    let max_len = if ctx.thorough { 65536 } else { 2048 };
+    let max_len = if ctx.thorough { 65536 } else { 9000 };
     let cases = ctx.n(200_000, 5_000_000) as u32;
     let state = RefCell::new(PbtState { frag, failed: None });
     let arena = RefCell::new(Arena::new(4 + max_len / 4096 + 2));
